@@ -74,6 +74,25 @@ class Helper:
             self.ok = False
         self.single_expr = len(self.body) == 1 and isinstance(self.body[0], ast.Return) and self.body[0].value is not None and not self.is_gen
         self.expr = self.body[0].value if self.single_expr else None
+        # `if c: return A else: return B` (possibly nested): the conditional expression `A if c else B`
+        if not self.single_expr and not self.is_gen:
+            def as_expr(stmts):
+                if len(stmts) == 1 and isinstance(stmts[0], ast.Return) and stmts[0].value is not None:
+                    return stmts[0].value
+                if len(stmts) == 1 and isinstance(stmts[0], ast.If) and stmts[0].orelse:
+                    a, b = as_expr(stmts[0].body), as_expr(stmts[0].orelse)
+                    if a is not None and b is not None:
+                        return ast.copy_location(ast.IfExp(test=stmts[0].test, body=a, orelse=b), stmts[0])
+                if len(stmts) == 2 and isinstance(stmts[0], ast.If) and not stmts[0].orelse:
+                    a, b = as_expr(stmts[0].body), as_expr(stmts[1:])
+                    if a is not None and b is not None:
+                        return ast.copy_location(ast.IfExp(test=stmts[0].test, body=a, orelse=b), stmts[0])
+                return None
+
+            e = as_expr(self.body)
+            if e is not None:
+                self.expr = e
+                self.single_expr = True
         # a generator that is one loop yielding one expression is a generator expression
         if self.is_gen and len(self.body) == 1 and isinstance(self.body[0], ast.For) and not self.body[0].orelse and len(self.body[0].body) == 1:
             y = self.body[0].body[0]
